@@ -40,6 +40,8 @@ def nontrivial(line, ans):
     t = line.split()
     if t[0] == "vcf":
         return line if int(t[1]) >= 2 else None
+    if t[0] == "hap":
+        return line if int(t[3]) >= 2 else None
     if t[1].startswith("K") or t[3] == "N" and int(t[4]) >= 2:
         return line
     # blocks: find the strand token after the variants
@@ -267,7 +269,7 @@ def cases(run):
             ln = rng.choice([0, 1, 1, 2, 3])
             ps = "."
             if fmt_has_ps:
-                ps = str(rng.choice([1, 1, 2, 5, 17]))
+                ps = str(rng.choice([0, 0, 1, 1, 2, 5, 17]))
                 if rng.random() < 0.04:
                     ps = "none"
             nalt = rng.choice([1, 1, 1, 2, 3])
@@ -276,3 +278,82 @@ def cases(run):
             recs.append(f"{c} {pos} {pos + ln} {rng.choice([1, 1, 2])} {ps} {nalt} {alts}")
         run.count(f"vcf:records:{nrec}")
         yield f"vcf {nrec} " + " ".join(recs)
+    # PS = 0 is a valid phase set id: >= 2 records of one chromosome phased with 0, mixed with positive / missing /
+    # absent PS (guaranteed share of the VCF lines)
+    for _ in range(120 if quick else 2500):
+        nrec = rng.randint(3, 7)
+        chroms = sorted(rng.choice(["chr1", "chr2"]) for _ in range(nrec))
+        zero_chrom = rng.choice(chroms)
+        cand = [i for i, c in enumerate(chroms) if c == zero_chrom]
+        if len(cand) < 2:
+            chroms = [zero_chrom] * nrec
+            cand = list(range(nrec))
+        zeros = set(rng.sample(cand, rng.randint(2, len(cand))))
+        recs, pos = [], 0
+        for i, c in enumerate(chroms):
+            pos += rng.randint(1, 9)
+            ln = rng.choice([0, 1, 1, 2])
+            ps = "0" if i in zeros else rng.choice(["3", "3", "12", "none", "none"])
+            nalt = rng.choice([1, 1, 2])
+            alts = " ".join(f"{rand_ref(rng, rng.randint(0, 3)) or '.'} {rng.choice(['SNV', 'insertion', 'deletion'])}"
+                            for _ in range(nalt))
+            recs.append(f"{c} {pos} {pos + ln} 1 {ps} {nalt} {alts}")
+        run.count("vcf:ps0-lines")
+        yield f"vcf {nrec} " + " ".join(recs)
+    # the same without a PS field on some lines is impossible in one VCF (FORMAT is per file in practice), but absent
+    # PS mixed with PS = 0 is what a reader yields for records lacking the key: cover it too
+    for _ in range(40 if quick else 800):
+        pos, recs = 0, []
+        n = rng.randint(3, 6)
+        for i in range(n):
+            pos += rng.randint(1, 9)
+            ps = "0" if i in (0, n - 1) else rng.choice([".", "0", "7"])
+            recs.append(f"chr1 {pos} {pos + 1} 1 {ps} 1 {rng.choice(BASES)} SNV")
+        yield f"vcf {n} " + " ".join(recs)
+    # alternative_haplotype_mapping: 2..4 haplotypes x 1..4 members (genes of non-coding transcripts / feature
+    # collections), whole chromosome and chunk parents
+    yield ("hap W ACGTTGCAAGGCTTACGATCGGATCCTAGCATGCAAGTCGGTACCATTGACGTAGCTAGGCTAACGTTAGC "
+           "4 2 4 5 T 14 15 GAA 1 33 36 . 2 24 25 C 31 33 G 1 55 57 A "
+           "4 G 2 + 2 2 9 12 20 + 1 2 20 G 1 - 2 30 38 42 50 G 1 + 1 62 68 F 1 - 1 22 28")
+    for _ in range(500 if quick else 12000):
+        ln = rng.randint(24, 60)
+        ref = rand_ref(rng, ln)
+        ptok, off = ("W", 0) if rng.random() < 0.5 else (None, rng.choice([3, 100, 12345]))
+        if ptok is None:
+            ptok = f"K:{off}"
+        # members: disjoint regions of the reference, each with 1..2 leaves inside its region
+        nm = rng.randint(1, 4)
+        cuts = sorted(rng.sample(range(2, ln - 1), nm - 1)) if nm > 1 else []
+        regions = [(a, b) for a, b in zip([0] + cuts, cuts + [ln]) if b - a >= 4]
+        members = []
+        for (a, b) in regions:
+            kind = rng.choice("GGF")
+            st = rng.choice("+-")
+            leaves = []
+            for _l in range(rng.choice([1, 1, 2])):
+                k = rng.randint(1, min(3, (b - a) // 2))
+                pts = sorted(rng.sample(range(a, b + 1), 2 * k))
+                bl = [(pts[2 * i], pts[2 * i + 1]) for i in range(k)]
+                if bl not in [x[1] for x in leaves]:
+                    leaves.append((st, bl))
+            members.append((kind, leaves))
+        if not members:
+            continue
+        allblocks = [b for _, ls in members for _, bl in ls for b in bl]
+        # haplotypes: distinct variant sets; most have transparent shape (<= 1 length-changing variant, the last one)
+        nh = rng.randint(2, 4)
+        haps = []
+        for _h in range(nh):
+            nv = rng.choice([1, 1, 2, 3])
+            vs = rand_variants(rng, ref, allblocks, nv)
+            vs.sort()
+            if rng.random() < 0.7:   # keep only the right-most length change
+                vs = [(s, e, a if i == len(vs) - 1 or len(a) == e - s else ref[s:e][::-1]) for i, (s, e, a) in enumerate(vs)]
+            haps.append(vs)
+        run.count(f"hap:haplotypes:{nh}")
+        run.count(f"hap:members:{len(members)}")
+        run.count(f"hap:parent:{ptok[0]}")
+        hs = " ".join(f"{len(vs)} " + " ".join(f"{s + off} {e + off} {a or '.'}" for s, e, a in vs) for vs in haps)
+        ms = " ".join(f"{kind} {len(ls)} " + " ".join(f"{st} {enc_blocks(shiftb(bl, off))}" for st, bl in ls)
+                      for kind, ls in members)
+        yield f"hap {ptok} {ref} {nh} {hs} {len(members)} {ms}"
